@@ -134,8 +134,15 @@ def ensure_coq_makefile():
             raise RuntimeError("coq_makefile failed: " + out)
 
 
-def coq_make(targets, timeout, jobs=8):
+def coq_make(targets, timeout, jobs=8, clean_dir=None):
     with Lock("coq"):
+        if clean_dir:
+            # thorough tier: clean rebuild of the property's own files -- done inside the build lock, so that a
+            # concurrent check that depends on them never sees them missing in the middle of its own make
+            for f in glob.glob(os.path.join(COQ, clean_dir, "*.vo")) + glob.glob(os.path.join(COQ, clean_dir, "*.glob")) \
+                    + glob.glob(os.path.join(COQ, clean_dir, "*.vok")) + glob.glob(os.path.join(COQ, clean_dir, "*.vos")):
+                try: os.remove(f)
+                except OSError: pass
         ensure_coq_makefile()
         rc, out = run(["make", "-j%d" % jobs, "--no-print-directory"] + targets, cwd=COQ, timeout=timeout)
         if rc != 0 and re.search(r"No rule to make target|No such file or directory|cannot open", out):
@@ -188,13 +195,14 @@ def source_hash(dirs):
     return h.hexdigest()[:24]
 
 
-def coqchk(coqdir, deps):
+def coqchk(coqdir, deps, tree=None):
     key = source_hash(sorted(set(["Common", "Gen", coqdir] + deps)))
     cdir = os.path.join(WORK, "coqchk-cache"); os.makedirs(cdir, exist_ok=True)
     cf = os.path.join(cdir, "%s-%s.txt" % (coqdir, key))
     if os.path.exists(cf):
         return 0, open(cf).read(), True
-    rc, out = run(["coqchk", "-silent", "-o", "-Q", COQ, "MV", "MV.%s.Props" % coqdir], cwd=COQ, timeout=3000)
+    tree = tree or COQ
+    rc, out = run(["coqchk", "-silent", "-o", "-Q", tree, "MV", "MV.%s.Props" % coqdir], cwd=tree, timeout=3000)
     if rc == 0:
         open(cf, "w").write(out)
     return rc, out, False
@@ -355,12 +363,20 @@ def _main(a, pid, seed, t0, spec, coqdir, deps, workdir, overlay, problems, note
         problems.append(("gate", b))
     props_file = os.path.join(COQ, coqdir, "Props.v")
     thms = theorems_of(props_file)
-    if a.tier == "thorough":
-        # clean rebuild of this property's own chain
-        for f in glob.glob(os.path.join(COQ, coqdir, "*.vo")) + glob.glob(os.path.join(COQ, coqdir, "*.glob")):
-            try: os.remove(f)
-            except OSError: pass
     rc, mk_out = coq_make(["%s/Props.vo" % coqdir, "%s/Model.vo" % coqdir], timeout=spec.get("coq_timeout", 1800))
+    clean_tree = None
+    if a.tier == "thorough" and rc == 0:
+        # clean rebuild from sources only, in a private copy of the coq tree (the shared tree is never cleaned: other
+        # checks running in parallel load its .vo files), then coqchk on that private build
+        clean_tree = os.path.join(workdir, "coq-clean")
+        shutil.copytree(COQ, clean_tree, ignore=shutil.ignore_patterns("*.vo", "*.vok", "*.vos", "*.glob", "*.aux", ".*.aux",
+                                                                       "Makefile", "Makefile.conf", ".Makefile.d", ".lia.cache", ".nia.cache"))
+        rcm, outm = run(["coq_makefile", "-f", "_CoqProject", "-o", "Makefile"], cwd=clean_tree, timeout=300)
+        if rcm == 0:
+            rcm, outm = run(["make", "-j8", "--no-print-directory", "%s/Props.vo" % coqdir], cwd=clean_tree,
+                            timeout=spec.get("coq_timeout", 1800) * 2)
+        if rcm != 0:
+            rc, mk_out = rcm, "clean rebuild failed:\n" + outm
     model_ok = os.path.exists(os.path.join(COQ, coqdir, "Model.vo"))
     assumptions = {}
     if rc != 0:
@@ -380,7 +396,7 @@ def _main(a, pid, seed, t0, spec, coqdir, deps, workdir, overlay, problems, note
     discharged = sum(1 for t in thms if t in assumptions) if rc == 0 else 0
     chk_note = None
     if a.tier == "thorough" and rc == 0 and not os.environ.get("VERIF_SKIP_COQCHK"):
-        crc, cout, cached = coqchk(coqdir, deps)
+        crc, cout, cached = coqchk(coqdir, deps, clean_tree)
         chk_note = "coqchk -silent -o MV.%s.Props: rc=%d%s; %s" % (coqdir, crc, " (cached)" if cached else "", " ".join(cout.split())[-600:])
         if crc != 0:
             problems.append(("proof", "coqchk failed: " + cout[-1500:]))
